@@ -192,6 +192,16 @@ def run_history(pid, history, meta):
     spec = PROPS[pid]
     mode = meta.get("mode", {})
     oi = corr.observe(history, reader=mode.get("reader", False), timer=mode.get("timer", False), dumps="all")
+    if meta.get("impl_only"):
+        # inputs outside the model's time domain (arbitrary doubles): the oracle alone decides
+        tr = oracles.make_trace(oi, history)
+        tr.quiesced = False
+        tr.obs = oi
+        meta = dict(meta, _history=history)
+        findings = [f.as_dict() for f in run_oracles(pid, tr, meta)]
+        stats = trace_stats(tr, history)
+        stats["notes"] = {"impl_only": 1}
+        return {"findings": findings, "diff": None, "stats": stats}
     om = corr.observe_model(history, dumps="all")
     d = difference(oi, om, spec)
     if d is None and spec.get("registry_model"):
@@ -471,6 +481,9 @@ def main():
 
         # (4) generated histories
         profs = profiles_for(pid, tier)
+        only = os.environ.get("VERIF_ONLY_PROFILE")
+        if only:
+            profs = [x for x in profs if x[0] in only.split(",")]     # (debugging aid: restrict to named profiles)
         work = []
         rng = random.Random(seed * 7919 + int(hashlib.sha1(pid.encode()).hexdigest()[:6], 16))
         for name, prof, n in profs:
